@@ -207,7 +207,7 @@ static void canon(char *b, size_t cap) {
         for (int k = 0; k < NCB; k++) AP("%d.%d,", m->armed[k].act, m->armed[k].arg);
         AP("s"); for (int q = 0; q < NPAT; q++) if (m->sub[q].present) AP("%d%d%d%d%d%d,", q, m->sub[q].prio, m->sub[q].oneshot, m->sub[q].upver, m->sub[q].dup, m->sub[q].af);
         AP("m"); for (int k = 0; k < m->nmb; k++) { msg_t *g = &MSG[m->mb[k].msg]; unsigned cur = 0; for (int q = 0; q < NPAT; q++) if ((m->mb[k].pats & (1u << q)) && m->sub[q].present && (unsigned char)m->sub[q].gen == m->mb[k].gens[q]) cur |= 1u << q;      /* sent under the subscription object that is still there */
-            AP("%d.%d.%d.%d.%d.%x.%d.%x.%x,", g->sender + 1, g->topic, g->sys, g->autofree, m->mb[k].optional, m->mb[k].pats, g->may_vanish * 2 + g->rc_neg, cur, m->mb[k].oneshots); }
+            AP("%d.%d.%d.%d.%d.%x.%d.%x.%x.%d,", g->sender + 1, g->topic, g->sys, g->autofree, m->mb[k].optional, m->mb[k].pats, g->may_vanish * 2 + g->rc_neg, cur, m->mb[k].oneshots, m->mb[k].maybe_recvd); }
         AP("b%zu.%d.%d.%d.%d", m->batch_size, m->batch_tmo, m->batch_fired, m->ever_batched, m->batch_due != 0); AP("u%d", m->ba_unsure);
         AP("st"); for (int k = 0; k < m->nst; k++) { evrec_t *r = &EV[m->stash[k]]; AP("%d.%d,", r->kind, r->kind == 0 ? MSG[r->msg].sender + 1 : r->key); }
         AP("h"); for (int k = 0; k < m->nhs; k++) AP("%d", m->hs[k]);
